@@ -17,7 +17,8 @@ below is rewritten:
     special character: one cell;
   * column 32 is sticky: the cursor does not advance past it;
   * any control code (first byte 10h-1Fh, which includes PAC, mid-row, special and extended characters) identical to the
-    immediately preceding word is the redundant second transmission and is ignored once;
+    word of the immediately preceding frame is the redundant second transmission and is ignored once (null padding, a word of
+    another channel or a gap between two SCC lines in between make it a new command);
   * a control code carries its data channel; printable characters belong to the channel of the last control code; field-2
     miscellaneous codes (15h/1Dh) are not field-1 codes: they and the characters after them are not this channel's data;
   * characters received before any mode-setting command are discarded.
@@ -58,6 +59,7 @@ class Decoder:
     self.pen_tag = None
     self.pac_unsure = False
     self.last = None        # last word if it was a control code that may be followed by its redundant copy
+    self.last_frame = None  # frame of the last word fed with a frame number
     self.cur_chan = None    # data channel of the last control code
 
   # --- memories
@@ -74,11 +76,16 @@ class Decoder:
     return [tuple(r) for r in self.disp]
 
   # --- input
-  def feed(self, w):
-    """w: 16-bit word, parity stripped.  returns True when displayed memory changed, or was rewritten with equal content
-    (a flip between two identical captions is still a flip)"""
+  def feed(self, w, frame=None):
+    """w: 16-bit word, parity stripped; frame: the frame the word is on the air (None = the frame after the previous word).
+    returns True when displayed memory changed, or was rewritten with equal content (a flip between two identical captions is
+    still a flip)"""
     before = self._snapshot()
     self.touched = False
+    if frame is not None:
+      if self.last_frame is not None and frame != self.last_frame + 1:
+        self.last = None        # the redundant copy of a control code comes in the very next frame, or it is a new command
+      self.last_frame = frame
     self._feed(w)
     return self.touched or self._snapshot() != before
 
@@ -89,6 +96,7 @@ class Decoder:
   def _feed(self, w):
     cls, chan, info = classify(w)
     if cls == "null":
+      self.last = None
       return
     if cls == "text":
       self.last = None
